@@ -71,6 +71,9 @@ pub enum Entry {
     AnyRef(u8),
     /// `UintRef::new(bytes)` then `TryFrom<UintRef>`
     UintRef,
+    /// `Decode::decode` through the simulator-owned reader device, then `finish`:
+    /// lending or not (a non-lending reader cannot hand out borrowed slices), optionally failing at the k-th read
+    ReaderDev { lending: bool, fail_at: Option<usize> },
     /// `rlp::decode`
     Rlp,
     /// `Rlp::new(bytes).val_at(0..2)` — list of two integers
@@ -116,6 +119,18 @@ where
             Entry::UintRef => {
                 let u = der::asn1::UintRef::new(b).map_err(|e| e.to_string())?;
                 T::try_from(u).map(|v| vec![val(&v)]).map_err(|e| e.to_string())
+            }
+            Entry::ReaderDev { lending, fail_at } => {
+                let mut r = crate::dev::der_reader::SimDerReader::new(b, lending, fail_at);
+                let v = T::decode(&mut r).map_err(|e| e.to_string())?;
+                let fired = r.fault_fired;
+                let v = r.finish(v).map_err(|e| e.to_string())?;
+                if fired {
+                    // a value came back although the reader device reported a failure during the decode:
+                    // flagged by an extra marker element, which no reference result has
+                    return Ok(vec![val(&v), BigUint::from(0xdead_u32)]);
+                }
+                Ok(vec![val(&v)])
             }
             _ => Err("not a DER entry".into()),
         }
@@ -194,7 +209,7 @@ pub fn real_decode(bits: u32, entry: Entry, b: &[u8]) -> Dec {
 pub fn ref_decode(bits: u32, entry: Entry, b: &[u8]) -> Result<Vec<BigUint>, Bad> {
     let max = (bits / 8) as usize;
     match entry {
-        Entry::FromDer => codec::der_int_decode(b, max).map(|v| vec![v]),
+        Entry::FromDer | Entry::ReaderDev { .. } => codec::der_int_decode(b, max).map(|v| vec![v]),
         Entry::Seq2 => codec::der_seq2_decode(b, max).map(|(a, c)| vec![a, c]),
         Entry::AnyRef(tag) => {
             if tag != 0x02 {
@@ -251,6 +266,7 @@ fn entry_name(e: Entry) -> String {
         Entry::Seq2 => "reader-seq2".into(),
         Entry::AnyRef(t) => format!("TryFrom<AnyRef>(tag={:02x})", t),
         Entry::UintRef => "TryFrom<UintRef>".into(),
+        Entry::ReaderDev { lending, fail_at } => format!("decode(SimDerReader:{}{})", if lending { "lending" } else { "non-lending" }, if fail_at.is_some() { ":read-fault" } else { "" }),
         Entry::Rlp => "rlp::decode".into(),
         Entry::RlpList2 => "Rlp::val_at".into(),
     }
@@ -353,6 +369,10 @@ pub fn check_decode(bits: u32, entry: Entry, b: &[u8], out: &mut RunOut) -> Dec 
                 format!("accepted a {} encoding as {:?}: {}", bad.name(), v, hex(&b[..b.len().min(40)])),
                 raw_plan(bits, entry, b),
             );
+        }
+        (Dec::Err(_), Ok(_)) if matches!(entry, Entry::ReaderDev { lending: false, .. } | Entry::ReaderDev { fail_at: Some(_), .. }) => {
+            // a reader that cannot lend slices, or that failed, may legitimately make every decode fail
+            out.count("probe:reader-device-made-decode-fail");
         }
         (Dec::Err(e), Ok(w)) => {
             out.viol(
@@ -648,6 +668,19 @@ fn exec(plan: &Plan, out: &mut RunOut) {
                         out.count("fault:der-wrong-tag");
                     }
                     check_decode(bits, Entry::FromDer, &b, out);
+                }
+                // the same TLV through the simulator-owned reader device
+                {
+                    let mut b = vec![0x02];
+                    b.extend(codec::der_len(c.len()));
+                    b.extend(&c);
+                    check_decode(bits, Entry::ReaderDev { lending: true, fail_at: None }, &b, out);
+                    out.count("fault:reader-non-lending");
+                    check_decode(bits, Entry::ReaderDev { lending: false, fail_at: None }, &b, out);
+                    for k in 0..3usize {
+                        out.count("fault:reader-read-fault-at-k(configured)");
+                        check_decode(bits, Entry::ReaderDev { lending: true, fail_at: Some(k) }, &b, out);
+                    }
                 }
                 // INTEGER with every length form
                 for (name, lf) in der_len_forms(c.len()) {
